@@ -762,6 +762,11 @@ class Datatype(Item):
                 if len(constr['args']) != len(argT):
                     raise ItemException("Datatype %s: %s has %d arguments, %d names are given" % (
                         self.name, constr['name'], len(argT), len(constr['args'])))
+                # Every type variable of a constructor is a parameter of the
+                # datatype: Mk :: 'a => big would embed every type into big.
+                if any(tv not in resT.args for tv in constr_type.get_tvars()):
+                    raise ItemException("Datatype %s: %s has a type variable that is not a parameter of the datatype" % (
+                        self.name, constr['name']))
                 self.constrs.append({
                     'name': constr['name'],
                     'type': constr_type,
